@@ -409,6 +409,8 @@ enum Mode {
     /// every start of every single-octet substitution (12 significant
     /// octets) at positions lo..hi
     Mutations(usize, usize),
+    /// the starts lo..hi only (buffers of more than 64 KiB)
+    Range(usize, usize),
 }
 
 struct Item {
@@ -616,6 +618,35 @@ fn structured_items(ctx: &Ctx) -> Vec<Item> {
         }
     }
 
+    // B8: offsets beyond what 14 and 16 bits can hold. One 140 000-octet
+    // buffer with small names at pointer-reachable offsets (0, 7, 200, 0x3ffd)
+    // and, in nine regions around multiples of 16 384 and 65 536, groups of
+    // "01 'z' + pointer" whose targets cycle over those names, the root octet
+    // at 0x3fff, a label interior and an empty region; every start of each
+    // region is decoded (the group start, the bare pointer, and the junk in
+    // between).
+    {
+        let mut b = vec![0u8; 140_000];
+        b[0..7].copy_from_slice(b"\x03abc\x01d\x00");
+        b[7..11].copy_from_slice(b"\x02xy\x00");
+        b[200..203].copy_from_slice(b"\x01q\x00");
+        b[0x3ffd..0x4000].copy_from_slice(b"\x01r\x00");
+        let targets = [0usize, 4, 7, 200, 0x3ffd, 0x3fff, 2, 300, 0x3ffe, 202];
+        let regions = [16_370usize, 32_760, 49_150, 65_520, 65_536 + 190, 81_910, 98_300, 131_060, 139_900];
+        for &base in &regions {
+            for (i, &tg) in targets.iter().enumerate() {
+                let at = base + 4 * i;
+                b[at] = 1;
+                b[at + 1] = b'z';
+                b[at + 2..at + 4].copy_from_slice(&ptr(tg));
+            }
+        }
+        for &base in &regions {
+            add(format!("far:region={base}"), b.clone(), &[Mode::Range(base.saturating_sub(2), base + 4 * targets.len() + 2)]);
+        }
+        add("far:end".into(), b.clone(), &[Mode::Range(139_990, 140_002)]);
+    }
+
     // B6: real messages (52 request templates with compressed names).
     for t in qvlib::templates::requests() {
         let n = t.bytes.len();
@@ -636,6 +667,14 @@ fn run_item(l: &mut Local, it: &Item) {
                 all_starts(l, &it.fam, &it.buf[..cut], true);
             }
         }
+        Mode::Range(lo, hi) => {
+            watchdog::enter_buffer(&it.fam, &it.buf);
+            for start in lo..hi {
+                watchdog::enter_start(start);
+                check_point(l, &it.fam, &it.buf, start, true);
+            }
+            watchdog::leave();
+        }
         Mode::Mutations(lo, hi) => {
             let mut b = it.buf.clone();
             for pos in lo..hi {
@@ -655,7 +694,7 @@ fn run_item(l: &mut Local, it: &Item) {
 
 // ------------------------------------------------------------ entry
 
-const RULE: &str = "every buffer of length <= N over the 12 significant octets {00,01,02,03,3f,40,7f,80,bf,c0,c1,ff} and over the pointer-dense alphabet {00..05,c0}, at every start offset 0..=len+1; plus structured buffers up to ~600 octets (names of 252..257 octets in 1/2/3 chunks, every length-octet value, pointer chains of depth 0..130, pointer-target sweeps, 125..128 labels, first chunks of 252..258 octets ending in a pointer, 52 request messages) at every start, with every truncation and every single-octet substitution by a significant octet; oracle = own RFC 1035 §4.1.4 decoder (pointer target < start of its chunk), cross-checked against qvlib's decoder; compared: Ok/Err, decoded name octet for octet, first-chunk length, label structure of the returned Name; a call that does not return within 10 s is reported by a watchdog";
+const RULE: &str = "every buffer of length <= N over the 12 significant octets {00,01,02,03,3f,40,7f,80,bf,c0,c1,ff} and over the pointer-dense alphabet {00..05,c0}, at every start offset 0..=len+1; plus structured buffers up to ~600 octets (names of 252..257 octets in 1/2/3 chunks, every length-octet value, pointer chains of depth 0..130, pointer-target sweeps, 125..128 labels, first chunks of 252..258 octets ending in a pointer, 52 request messages) at every start, with every truncation and every single-octet substitution by a significant octet; plus one 140 000-octet buffer decoded at every start of nine regions around multiples of 16 384 and 65 536 holding names that point back to offsets <= 0x3fff; oracle = own RFC 1035 §4.1.4 decoder (pointer target < start of its chunk), cross-checked against qvlib's decoder; compared: Ok/Err, decoded name octet for octet, first-chunk length, label structure of the returned Name; a call that does not return within 10 s is reported by a watchdog";
 
 pub fn run(ctx: Ctx) -> ! {
     model::self_test();
